@@ -1000,10 +1000,11 @@ def c18_stack(tier):
     rows = []
     big = 3000000
     orders = ["mono", "rev", "zigzag", "rand", "revtop", "monobot", "blocks"]
-    teardowns = ["drop", "clear", "partial", "full", "fullback", "query"]
+    teardowns = ["drop", "clear", "partial", "full", "fullback", "query", "remove", "adaptors"]
     jobs = []
     if tier == "quick":
         combos = [(o, t) for o in orders for t in ("drop", "clear", "partial")] + [("mono", "full"), ("rev", "fullback"), ("zigzag", "query"), ("blocks", "full")]
+        combos += [(o, t) for o in ("mono", "rev", "zigzag", "rand") for t in ("remove", "adaptors")]
     else:
         combos = [(o, t) for o in orders for t in teardowns]
     for o, t in combos:
@@ -1012,7 +1013,7 @@ def c18_stack(tier):
         jobs.append((name, big, True))
         # a size sweep on the small stack: a teardown that recurses only below some size threshold, or only
         # up to some depth, shows in a window of sizes
-        for n in ((1000, 30000, 100000, 130000, 400000) if t in ("drop", "clear", "partial") else (1000,)):
+        for n in ((1000, 30000, 100000, 130000, 400000) if t in ("drop", "clear", "partial", "remove", "adaptors") else (1000,)):
             jobs.append((name, n, True))
     jobs.append(("mono-setdrop", big, True))
     for n in ((1000, 20000, 50000, 200000) if tier == "quick" else (1000, 10000, 20000, 50000, 100000, 200000, 500000)):
